@@ -47,3 +47,31 @@ claim("C17", "exploration",
       "model-based property testing (rapid): random API call histories on Writer and Reader checked step by step against a small reference state machine, with transient sink faults",
       "Generated histories (zero-length and batch-crossing writes, repeated Close, calls after Close, GetWritten/GetRead probes, armed one-shot sink failures) are compared after every call with the documented state machine.",
       "Trusts: single-goroutine use per object; the single-Write stream as reference for the accepted bytes.", "DESIGN.md 4/C17")
+claim("C03", "exploration",
+      "structure-aware generated corruption (header/length/mode/codec-header forging with recomputed checksums, payload mutation, random bytes) decoded in sandboxed child processes; thorough adds coverage-guided native Go fuzzing re-judged by the same sandbox",
+      "Forged and random streams for every transform/entropy pair are decoded to the end in a child process: the oracle is survival and termination (error or EOF), with time and memory rules that cannot alarm on honest behaviour.",
+      "Trusts: time budgets (20 s + 2 s/MiB, reproduced alone at 5x) and the 4 GiB ceiling rule; forged block sizes capped at 16/64 MiB; KF-16-shaped inputs excluded while that finding is open.", "DESIGN.md 4/C03")
+claim("C04", "exploration",
+      "property-based testing (rapid) with schedule perturbation on the verif hooks and a controlled reverse-completion-order scheduler; metamorphic oracle (every variant == single-job single-Write reference)",
+      "Each generated (data, parameters) is compressed under many job counts, Write partitions, repeated runs, yield/sleep perturbation and forced reverse completion order; all outputs must be byte-identical to the reference.",
+      "Trusts: schedules are sampled (exhaustive only in C07's N<=4 enumeration, which applies the same oracle).", "DESIGN.md 4/C04")
+claim("C05", "exploration",
+      "property-based testing (rapid) with schedule perturbation; differential oracle across reader job counts plus a deterministic damaged-block oracle (prefix, limit, error at the covering call)",
+      "Valid and single-damaged-block streams are decoded with many job counts, buffer sizes and perturbed schedules: healthy streams must come back exactly once in order; for a failing block nothing from it or beyond may ever be delivered and the covering call must report the error.",
+      "Trusts: schedules sampled here, enumerated for N<=4 in C07; block-distinguishable data.", "DESIGN.md 4/C05")
+claim("C07", "model_checking",
+      "stateless model checking of the real code: a controlled scheduler on the verif hooks enumerates all task schedules (DFS with partial-order reduction) for N<=4 tasks x every fault plan; an executable trace monitor is the model; rapid-drawn schedules for N=5..12",
+      "Every interleaving of up to 4 block tasks (at hook granularity), crossed with a failure of each task at each protocol step, data-caused failures, end-of-stream and skipped-block outcomes, is executed on the real Writer/Reader and its trace must be accepted by the 5-clause monitor; N=4 is complete in thorough and capped per plan in quick.",
+      "Trusts: hook points cover every access to the shared counter; the reduction advances non-conflicting steps deterministically.", "DESIGN.md 4/C07")
+claim("C10", "exploration",
+      "differential property-based testing against a vendored pinned reference build (encoder and decoder) plus a 182-stream golden corpus with recorded SHA-256",
+      "Streams are written by the frozen reference encoder and must decode with the current decoder to exactly what the reference decoder returns; archived streams must keep decoding to their recorded originals.",
+      "Trusts: the vendored snapshot of commit 76efab5 as the definition of format 6.", "DESIGN.md 4/C10")
+claim("C18", "exploration",
+      "property-based testing (rapid) of K concurrent pipelines under the Go race detector with schedule perturbation; differential oracle against the same pipelines run alone",
+      "Groups of 2..8 independent compress/decompress pipelines over all codecs run concurrently in a -race build; results must equal the solo runs and the race detector must stay silent.",
+      "Trusts: the race detector only sees executed schedules.", "DESIGN.md 4/C18")
+claim("C19", "exploration",
+      "property-based testing (rapid) of the command-line binary as a black box: generated file trees x option combinations x scenarios, with SIGKILL crash points drawn over the measured run duration",
+      "The tool built from the working tree is run on generated trees: round trip through files, directories and pipes, no-overwrite, same-file refusal, input immutability, --rm ordering, and the either-source-or-decodable-output invariant after SIGKILL at drawn instants.",
+      "Trusts: kill instants are sampled; fsync durability is out of scope.", "DESIGN.md 4/C19")
